@@ -50,3 +50,14 @@ Definition call_wf (c : call) : Prop :=
   | CWriteMultipleCoils s _ => is_u16 s
   | CWriteMultipleRegisters s vs => is_u16 s /\ Forall is_u16 vs
   end.
+
+(* a range as AddressRange::try_from returns it: u16 start and count, non-empty, inside the
+   address space; a request as the API constructs it *)
+Definition range_wf (rg : N * N) : Prop :=
+  is_u16 (fst rg) /\ is_u16 (snd rg) /\ 1 <= snd rg /\ fst rg + snd rg <= 65536.
+Definition request_wf (r : request) : Prop :=
+  match r with
+  | RReadCoils rg | RReadDiscreteInputs rg | RReadHoldingRegisters rg | RReadInputRegisters rg => range_wf rg
+  | RWriteSingleCoil _ _ | RWriteSingleRegister _ _ => True
+  | RWriteMultipleCoils rg _ | RWriteMultipleRegisters rg _ => range_wf rg
+  end.
